@@ -6,7 +6,7 @@ let zs (x : z) = dec_of_z x
 let loc_s withloc (l : loc) = if withloc then Printf.sprintf "@%s.%s.%s.%s" (zs l.sl) (zs l.sc) (zs l.el) (zs l.ec) else ""
 let kind_s (k : tkind) = string_of_int (int_of_n (tk_code k))
 let attr_s = function AttrReg -> "0" | AttrClose -> "1" | AttrConst -> "2"
-let lexerr_s = function LeIllegal -> "ill" | LeUnfinishedStr -> "str" | LeMissingClose -> "close" | LeBadLongDelim -> "delim" | LeMalformedNumber -> "num"
+let lexerr_s = function LeIllegal -> "ill" | LeUnfinishedStr -> "str" | LeMissingClose -> "close" | LeBadLongDelim -> "delim" | LeMalformedNumber -> "num" | LeBadEscape -> "esc"
 let perr_s = function PeExpected -> "exp" | PeCannotStart -> "start" | PeMissingField -> "field" | PeMissingArgs -> "args"
   | PeNotNumber -> "num" | PeExprStat -> "stat" | PeCannotAssign -> "assign" | PeBadAttr -> "attr" | PeMultiClose -> "close"
 
